@@ -3,7 +3,9 @@
 package main
 
 import (
+	"bytes"
 	"encoding/hex"
+	"encoding/json"
 	"fmt"
 	"os"
 	"os/exec"
@@ -13,6 +15,7 @@ import (
 	"strings"
 	"sync"
 	"sync/atomic"
+	"time"
 
 	"com.tuntun.rangers/node/src/common"
 	"com.tuntun.rangers/node/src/middleware"
@@ -255,4 +258,284 @@ func raceSoakRound(r *hx.Rng, round int, withClear bool) {
 		cls = "soak:all-methods+clear"
 	}
 	res.Count(cls, fmt.Sprintf("%s-%d", cls, round), false)
+}
+
+// ---------- the soaks as a child process ----------
+// The child announces every round on stderr ("C17-SOAK <kind> <round>") so that the parent can say where it
+// died; it writes its own result.json, which the parent merges.
+func soakChildMain(a hx.Args) {
+	res = hx.NewResult("soak child")
+	common.Init(0, "p.ini", "dev")
+	common.SetBlockHeight(100)
+	middleware.InitMiddleware()
+	service.InitService()
+	var err error
+	sharedStore, err = db.NewLDBDatabase("c17exec", 16, 16)
+	if err != nil {
+		fmt.Println("cannot open LevelDB store:", err)
+		os.Exit(2)
+	}
+	r := hx.NewRng(a.Seed)
+	announce := func(kind string, round int) { fmt.Fprintf(os.Stderr, "C17-SOAK %s %d\n", kind, round) }
+	if a.Tier == "thorough" {
+		announce("add-vs-mark", 0)
+		soak(r.Fork(), 3000)
+		for i := 0; i < 150; i++ {
+			announce("all-methods", i)
+			raceSoakRound(r.Fork(), i, false)
+		}
+		for i := 0; i < 30; i++ {
+			announce("all-methods+clear", 150+i)
+			raceSoakRound(r.Fork(), 150+i, true)
+		}
+		for i := 0; i < 3; i++ {
+			announce("hammer", i)
+			hammerRound(r.Fork(), i)
+		}
+	} else {
+		announce("add-vs-mark", 0)
+		soak(r.Fork(), 200)
+		for i := 0; i < 10; i++ {
+			announce("all-methods", i)
+			raceSoakRound(r.Fork(), i, false)
+		}
+		for i := 0; i < 2; i++ {
+			announce("hammer", i)
+			hammerRound(r.Fork(), i)
+		}
+	}
+	res.Write(a.Out)
+}
+
+var anyFrame = regexp.MustCompile(`^([A-Za-z0-9_./\-]+)\.(\(\*?[A-Za-z0-9_]+\)\.)?([A-Za-z0-9_]+)(\.func[0-9.]+)?\(`)
+
+// the crashing goroutine's stack: innermost and outermost frame in package service
+func crashFrames(out string, from int) (string, string) {
+	inner, outer := "", ""
+	lines := strings.Split(out[from:], "\n")
+	started := false
+	for _, l := range lines {
+		if strings.HasPrefix(l, "goroutine ") {
+			if started {
+				break
+			}
+			started = true
+			continue
+		}
+		if !started {
+			continue
+		}
+		if m := anyFrame.FindStringSubmatch(l); m != nil && strings.HasSuffix(m[1], "/src/service") {
+			if inner == "" {
+				inner = m[3]
+			}
+			outer = m[3]
+		}
+	}
+	if inner == "" {
+		inner, outer = "unknown", "unknown"
+	}
+	return inner, outer
+}
+
+func runSoakChild(a hx.Args, seed uint64) {
+	cdir := filepath.Join(a.Out, "soakchild")
+	wdir := filepath.Join(a.Out, "soakwork")
+	os.MkdirAll(cdir, 0o755)
+	os.MkdirAll(wdir, 0o755)
+	cmd := exec.Command(os.Args[0], "-seed", fmt.Sprint(seed), "-n", "0", "-tier", a.Tier, "-out", cdir)
+	cmd.Dir = wdir
+	cmd.Env = append(os.Environ(), "C17_SOAK_CHILD=1")
+	var buf bytes.Buffer
+	cmd.Stdout = &buf
+	cmd.Stderr = &buf
+	runErr := cmd.Run()
+	out := buf.String()
+	os.WriteFile(filepath.Join(a.Out, "soakchild.log"), []byte(out), 0o644)
+	os.RemoveAll(wdir)
+	// where was it?
+	kind, round := "?", "?"
+	if i := strings.LastIndex(out, "C17-SOAK "); i >= 0 {
+		fmt.Sscanf(out[i:], "C17-SOAK %s %s", &kind, &round)
+	}
+	var child hx.Result
+	if b, err := os.ReadFile(filepath.Join(cdir, "result.json")); err == nil && json.Unmarshal(b, &child) == nil {
+		for _, v := range child.Violations {
+			res.Violate(v.Key, v.What, v.Input)
+		}
+		for k, n := range child.Histogram {
+			if !strings.HasPrefix(k, "violation:") {
+				res.Histogram[k] += n
+			}
+		}
+		res.Evaluations += child.Evaluations
+		res.Notes = append(res.Notes, child.Notes...)
+	}
+	fatal := strings.Index(out, "fatal error:")
+	if fatal < 0 {
+		fatal = strings.Index(out, "\npanic:")
+	}
+	if runErr == nil && fatal < 0 {
+		return
+	}
+	// the pool (or the runtime under it) died under concurrent use
+	msg, inner, outer := fmt.Sprint("soak child: ", runErr), "unknown", "unknown"
+	if fatal >= 0 {
+		msg = strings.TrimSpace(strings.SplitN(out[fatal:], "\n", 3)[0])
+		if strings.HasPrefix(msg, "panic:") || msg == "" {
+			msg = strings.TrimSpace(strings.SplitN(strings.TrimLeft(out[fatal:], "\n"), "\n", 2)[0])
+		}
+		inner, outer = crashFrames(out, fatal)
+	}
+	excerpt := out
+	if fatal >= 0 {
+		excerpt = out[fatal:]
+	}
+	if len(excerpt) > 3000 {
+		excerpt = excerpt[:3000]
+	}
+	res.Count("soak:child-died", "soak-child-died", true)
+	violate("C17/concurrency:pool-corrupted:"+inner+"|"+outer,
+		fmt.Sprintf("concurrent use of the pool killed the process (%s) in soak round %s/%s: %s in %s called from %s", msg, kind, round, msg, inner, outer),
+		map[string]interface{}{"soak_seed": seed, "tier": a.Tier, "round_kind": kind, "round": round,
+			"op_mix": soakMix[kind], "replay": fmt.Sprintf("C17_SOAK_CHILD=1 <harness> -seed %d -n 0 -tier %s -out <dir>", seed, a.Tier), "crash": excerpt})
+}
+
+var soakMix = map[string]string{
+	"add-vs-mark":       "8 goroutines AddTransaction(tx) + 1 goroutine MarkExecuted([tx]) per round, LevelDB store",
+	"all-methods":       "3 adders, 1 chain goroutine (MarkExecuted/UnMarkExecuted under the chain write lock), 1 proposer (PackForCast under the chain read lock), 2 readers (GetTransaction/IsExisted/TxNum/GetReceived/GetExecuted/IsFull), 1 expiry ticker",
+	"all-methods+clear": "as all-methods, plus Clear()",
+	"hammer":            "1 submitter adding thousands of transactions, 1 bookkeeper marking them executed/evicted in blocks of 25, 1 proposer packing, 2 lookups (GetTransaction/IsExisted/TxNum/IsFull), 1 expiry ticker, until the submitter is done",
+}
+
+// A long round in the shape of the node's steady state: a submitter, the block bookkeeper, the proposer and
+// lookups all busy at once on one pool.
+func hammerRound(r *hx.Rng, round int) {
+	setFlags(flags{true, true, true, true})
+	mem, _ := db.NewMemDatabase()
+	pool := service.VerifNewTxPool(mem, poolSize)
+	total := 12000
+	if raceEnabled {
+		total = 2500
+	}
+	txs := make([]*types.Transaction, total)
+	for i := range txs {
+		tx := &types.Transaction{Source: fmt.Sprintf("0x%040x", 0xc17000+i%64), Type: 188, ChainId: "9500"}
+		copy(tx.Hash[:], r.Bytes(32))
+		txs[i] = tx
+	}
+	var done int32
+	var wg sync.WaitGroup
+	var bad int32
+	guard := func(who string) {
+		if e := recover(); e != nil {
+			atomic.StoreInt32(&done, 1)
+			violate("C17/concurrency:pool-corrupted:panic|"+who, fmt.Sprint(who, " panicked under concurrent use: ", e), map[string]interface{}{"round_kind": "hammer", "round": round, "op_mix": soakMix["hammer"]})
+		}
+		wg.Done()
+	}
+	toBook := make(chan *types.Transaction, total)
+	wg.Add(1)
+	go func() { // submitter
+		defer guard("AddTransaction")
+		defer close(toBook)
+		for i := 0; i < total && atomic.LoadInt32(&done) == 0; i++ {
+			pool.AddTransaction(txs[i])
+			toBook <- txs[i]
+		}
+		atomic.StoreInt32(&done, 1)
+	}()
+	wg.Add(1)
+	go func() { // bookkeeper
+		defer guard("MarkExecuted")
+		var batch []*types.Transaction
+		h := uint64(1)
+		for tx := range toBook {
+			batch = append(batch, tx)
+			if len(batch) < 25 {
+				continue
+			}
+			middleware.LockBlockchain("c17 hammer")
+			if h%2 == 0 {
+				var ev []common.Hash
+				for _, t := range batch {
+					ev = append(ev, t.Hash)
+				}
+				pool.MarkExecuted(&types.BlockHeader{Height: h}, nil, nil, ev)
+			} else {
+				var rs types.Receipts
+				for _, t := range batch {
+					rs = append(rs, &types.Receipt{TxHash: t.Hash, Height: h})
+				}
+				pool.MarkExecuted(&types.BlockHeader{Height: h}, rs, batch, nil)
+			}
+			middleware.UnLockBlockchain("c17 hammer")
+			h++
+			batch = nil
+		}
+	}()
+	wg.Add(1)
+	go func() { // proposer
+		defer guard("PackForCast")
+		adb := mkState(nil)
+		for atomic.LoadInt32(&done) == 0 {
+			middleware.RLockBlockchain("c17 hammer cast")
+			p := pool.PackForCast(2, adb)
+			middleware.RUnLockBlockchain("c17 hammer cast")
+			seen := map[common.Hash]bool{}
+			for _, t := range p {
+				if t == nil || seen[t.Hash] {
+					atomic.AddInt32(&bad, 1)
+					continue
+				}
+				seen[t.Hash] = true
+			}
+			if len(p) > perBlock {
+				atomic.AddInt32(&bad, 1)
+			}
+		}
+	}()
+	for k := 0; k < 2; k++ {
+		wg.Add(1)
+		rr := r.Fork()
+		go func() { // lookups
+			defer guard("lookup")
+			for atomic.LoadInt32(&done) == 0 {
+				h := txs[rr.Intn(total)].Hash
+				pool.GetTransaction(h)
+				pool.IsExisted(h)
+				pool.TxNum()
+				pool.IsFull()
+			}
+		}()
+	}
+	wg.Add(1)
+	go func() { // expiry ticker
+		defer guard("growRing")
+		for atomic.LoadInt32(&done) == 0 {
+			pool.VerifGrowRing()
+			time.Sleep(2 * time.Millisecond)
+		}
+	}()
+	wg.Wait()
+	in := func() interface{} {
+		return map[string]interface{}{"round_kind": "hammer", "round": round, "op_mix": soakMix["hammer"]}
+	}
+	if bad > 0 {
+		violate("C17/soak:pack-duplicate-or-over-limit", "a batch packed during concurrent use had a nil entry, a duplicate hash or exceeded the limit", in())
+	}
+	seen := map[common.Hash]bool{}
+	for _, t := range pool.GetReceived() {
+		if seen[t.Hash] {
+			violate("C17/soak:duplicate-pending", "two pending entries with one hash after concurrent use", in())
+		}
+		seen[t.Hash] = true
+		if pool.GetExecuted(t.Hash) != nil {
+			violate("C17/soak:pending-and-executed", "a transaction is pending and executed after concurrent use", in())
+		}
+	}
+	if n := pool.TxNum(); n != len(seen) {
+		violate("C17/soak:size-drift", fmt.Sprintf("TxNum() = %d but %d pending entries are listed", n, len(seen)), in())
+	}
+	res.Count("soak:hammer", fmt.Sprintf("hammer-%d", round), false)
 }
